@@ -11,7 +11,9 @@ EXTENDS Integers, Sequences, FiniteSets, TLC, Json
 
 CONSTANTS Restarts,     \* sequence of [lo, hi, every]: the simulation (fixed while reads happen)
           NLev,
-          Queries,      \* set of [it |-> seq, vars |-> seq of component names, rl |-> n, split |-> BOOLEAN]
+          Queries,      \* set of [it |-> seq, names |-> seq of requested names, rl |-> n, split |-> BOOLEAN]
+          Components,   \* name -> set of stored scalar components (a tensor name stands for its components; a request may
+                        \* name a tensor AND one of its components, or the same name twice)
           MaxReads,
           Emit
 
@@ -30,7 +32,8 @@ Admissible(q) == q.rl < NLev /\ Range(q.it) \subseteq AllIts
 
 (* entries a cached read leaves behind: every requested component at every requested iteration, *)
 (* filed in the restart that serves the iteration                                               *)
-Entries(q) == {[r |-> Serving(i) - 1, i |-> i, v |-> v, rl |-> q.rl] : i \in Range(q.it), v \in Range(q.vars)}
+Comps(q)   == UNION {Components[n] : n \in Range(q.names)}
+Entries(q) == {[r |-> Serving(i) - 1, i |-> i, v |-> v, rl |-> q.rl] : i \in Range(q.it), v \in Comps(q)}
 
 Init == cache = {} /\ hist = << >>
 Read(q) == /\ Len(hist) < MaxReads /\ Admissible(q)
@@ -40,7 +43,7 @@ Next == \E q \in Queries : Read(q)
 Spec == Init /\ [][Next]_vars
 
 (* what the call returns: the serving restart of every iteration, in sorted order - independent of the cache *)
-Result(q) == LET its == SortSet(Range(q.it)) IN [it |-> its, from |-> [n \in 1 .. Len(its) |-> Serving(its[n]) - 1]]
+Result(q) == LET its == SortSet(Range(q.it)) IN [it |-> its, from |-> [n \in 1 .. Len(its) |-> Serving(its[n]) - 1], comps |-> Comps(q)]
 
 CacheOnlyGrows  == [][cache \subseteq cache']_vars
 CacheWellFiled  == \A e \in cache : e.i \in Its(e.r + 1) /\ e.r = Serving(e.i) - 1 /\ e.rl < NLev
